@@ -118,6 +118,8 @@ Rings1  == {RingT(1, "d")}
 Nodes1  == {NodeT("A", <<>>)}
 NoSym   == {}
 SymOne  == {"="}
+(* ring index 0 in both spellings ("0", "%00") next to index 1: 0 is a legal index like any other *)
+Rings01 == {RingT(0, "d"), RingT(1, "d"), RingT(0, "%")}
 SymAll  == Symbols
 EQ2(k, v) == [k |-> k, v |-> v, eq |-> 2]
 NodesF  == Nodes2 \cup {NodeT("A", <<EQ2("w", "ab=c")>>), NodeT("A", <<PO("1"), PO("1"), PO("2")>>),
